@@ -97,11 +97,18 @@ func judge(sh *shared, o *observation) {
 	case o.Finished:
 		// O2
 		im.Hist("phase:finished")
-		if v.State != o.Before.State || v.Size != o.Before.Size || o.Final.State != o.Before.State || o.Final.Size != o.Before.Size {
-			viol("outcome-lost", fmt.Sprintf("finished unit %s (state %d, size %d) reports state %d size %d after the restart, later state %d size %d",
-				o.Unit, o.Before.State, o.Before.Size, v.State, v.Size, o.Final.State, o.Final.Size))
+		if v.State != o.Before.State || v.Size != o.Before.Size || v.Detail != o.Before.Detail ||
+			o.Final.State != o.Before.State || o.Final.Size != o.Before.Size || o.Final.Detail != o.Before.Detail {
+			viol("outcome-lost", fmt.Sprintf("finished unit %s (state %d %q, size %d) reports state %d %q size %d after the restart, later state %d %q size %d",
+				o.Unit, o.Before.State, o.Before.Detail, o.Before.Size, v.State, v.Detail, v.Size, o.Final.State, o.Final.Detail, o.Final.Size))
+		} else if o.Cycle2 != nil && o.Cycle2.Listed && o.Cycle2.WorkType != "" &&
+			(o.Cycle2.State != o.Before.State || o.Cycle2.Size != o.Before.Size || o.Cycle2.Detail != o.Before.Detail) {
+			viol("outcome-lost", fmt.Sprintf("finished unit %s (state %d %q, size %d) reports state %d %q size %d after the second restart",
+				o.Unit, o.Before.State, o.Before.Detail, o.Before.Size, o.Cycle2.State, o.Cycle2.Detail, o.Cycle2.Size))
 		} else if o.Results != "complete" {
 			viol("output-lost", "the output of finished unit "+o.Unit+" cannot be fetched in full: "+o.Results)
+		} else if o.Results2 != "" && o.Results2 != "complete" && !(o.Cycle2 != nil && o.Cycle2.WorkType == "") {
+			viol("output-lost", "the output of finished unit "+o.Unit+" cannot be fetched in full after the second restart: "+o.Results2)
 		}
 	case o.Kind == "local" && o.RunnerUp, o.Kind == "remote-bound" && startedBefore:
 		// O3
